@@ -1,4 +1,5 @@
 Require Import ExtrOcamlBasic.
 Require Import SGV.Lmm.System.
 Require Import SGV.Lmm.Dump.
-Extraction "lmm_model.ml" run_c18 run_c18_pinned run_c18_oracle.
+Require Import SGV.Lmm.Maxmin.
+Extraction "lmm_model.ml" run_c18 run_c18_pinned run_c18_oracle run_alloc_oracle run_maxmin.
